@@ -58,7 +58,8 @@ def run(tier, seed):
             v.violation(bad, desc)
             continue
         # integer-typed arguments: the literal 0 (forward scattering, f = Z), 1, 2, numpy integers, an integer grid
-        for sint in (0, 1, 2, np.int64(0), np.int32(1), np.arange(3), [0, 1, 2]):
+        for sint in (0, 1, 2, np.int64(0), np.int32(1), np.arange(3), [0, 1, 2], np.uint8(1), np.uint16(2), np.arange(3, dtype=np.uint32),
+                     np.float32(0.5), np.array([0.25, 1.5], dtype=np.float32)):
             try:
                 got = np.asarray(structure.FormFactor(el, sint if not isinstance(sint, list) else np.array(sint)), dtype=float)
             except Exception as ex:
@@ -67,7 +68,8 @@ def run(tier, seed):
             nev += 1
             sv = np.asarray(sint, dtype=float)
             want = sum(c[i] * np.exp(-c[i + 4] * sv * sv) for i in range(4)) + c[8]
-            if got.shape != np.shape(want) or np.abs(got - want).max() > 1e-9 * max(1.0, float(np.abs(want).max())):
+            rel = 1e-9 if not (hasattr(sint, "dtype") and sint.dtype == np.float32) else 1e-5
+            if got.shape != np.shape(want) or not np.all(np.isfinite(got)) or np.abs(got - want).max() > rel * max(1.0, float(np.abs(want).max())):
                 v.violation("FormFactor(%s, %r) = %s for an integer-typed argument, sum a_i exp(-b_i s^2) + c = %s" %
                             (el, sint, got.tolist(), np.asarray(want).tolist()), desc)
                 break
